@@ -426,6 +426,7 @@ void add_type(Node *node);
 //
 
 void codegen(Obj *prog, FILE *out);
+bool pass_in_memory(Type *ty);
 int align_to(int n, int align);
 
 //
